@@ -49,6 +49,7 @@ type dOp struct {
 	Match string   `json:"match"`
 	Forge string   `json:"forge"` // hex token to present instead of the real one
 	Batch []dOp    `json:"batch"` // pipebatch: the commands queued in one pipeline before Exec
+	Cx    string   `json:"cx"`    // "expired": the caller's context is already past its deadline when the call is made
 }
 
 type dScenario struct {
@@ -287,6 +288,11 @@ func (r *dRunner) dump(d, key string) []map[string]interface{} {
 func (r *dRunner) runOp(op *dOp) map[string]interface{} {
 	ctx, cancel := context.WithTimeout(context.Background(), 20*time.Second)
 	defer cancel()
+	if op.Cx == "expired" {
+		c2, cancel2 := context.WithDeadline(context.Background(), time.Now().Add(-time.Second))
+		defer cancel2()
+		ctx = c2
+	}
 	ob := map[string]interface{}{}
 	keyb, _ := hex.DecodeString(op.K)
 	key := string(keyb)
